@@ -46,6 +46,9 @@ func (s *gateSrc) Next(ctx context.Context) (int, error) {
 		if s.doneK == 2 {
 			return 0, errSrc
 		}
+		if s.doneK == 3 {
+			return 0, context.Canceled
+		}
 		return 0, stream.End
 	}
 	for i := 0; i < s.kids; i++ {
@@ -63,9 +66,13 @@ func (s *gateSrc) Next(ctx context.Context) (int, error) {
 			s.done, s.doneK = true, 1
 			s.r.emit(Ev{"ev": "srcend", "i": s.idx})
 			return 0, stream.End
+		case 3: // the source's own error happens to be context.Canceled (e.g. its producer was cancelled upstream)
+			s.done, s.doneK = true, 3
+			s.r.emit(Ev{"ev": "srcerr", "i": s.idx, "c": 1})
+			return 0, context.Canceled
 		default:
 			s.done, s.doneK = true, 2
-			s.r.emit(Ev{"ev": "srcerr", "i": s.idx})
+			s.r.emit(Ev{"ev": "srcerr", "i": s.idx, "c": 0})
 			return 0, errSrc
 		}
 	case <-ctx.Done():
@@ -126,7 +133,7 @@ func genBatch(rng *rand.Rand, maxwait int, withHold bool) []batchStep {
 			if !finished {
 				finished = true
 				if rng.Intn(3) == 0 {
-					out = append(out, batchStep{A: "srcerr"})
+					out = append(out, batchStep{A: []string{"srcerr", "srcerr", "srccanc"}[rng.Intn(3)]})
 				} else {
 					out = append(out, batchStep{A: "end"})
 				}
@@ -184,6 +191,8 @@ func runBatch(t *testing.T, size, maxwait int, withFunc bool, steps []batchStep)
 				src.q <- srcMsg{1, 0}
 			case "srcerr":
 				src.q <- srcMsg{2, 0}
+			case "srccanc":
+				src.q <- srcMsg{3, 0}
 			case "next":
 				if busy() || closed {
 					return
@@ -268,6 +277,12 @@ func directedBatch() []struct {
 			{A: "adv", D: 15}, {A: "next"}, {A: "unhold"}, {A: "next"}, {A: "item", V: 3}, {A: "next"}, {A: "adv", D: 3}, {A: "item", V: 4}, {A: "adv", D: 20}, {A: "next"}}},
 		{2, 10, true, []batchStep{{A: "item", V: 1}, {A: "next", Ctx: 1}, {A: "cancel", Ctx: 1}, {A: "hold"}, {A: "item", V: 2},
 			{A: "adv", D: 11}, {A: "next"}, {A: "unhold"}, {A: "item", V: 3}, {A: "next"}, {A: "adv", D: 1}, {A: "next"}}},
+		// the timer is re-armed (not created) for a batch whose first item arrived while nobody was waiting: it
+		// must fire maxWait after that item, not maxWait after the consumer arrived
+		{3, 10, false, []batchStep{{A: "item", V: 1}, {A: "next"}, {A: "adv", D: 10}, {A: "item", V: 2}, {A: "adv", D: 4}, {A: "next"},
+			{A: "adv", D: 6}, {A: "adv", D: 5}, {A: "item", V: 3}, {A: "adv", D: 9}, {A: "next"}, {A: "adv", D: 1}, {A: "adv", D: 20}}},
+		{2, 50, true, []batchStep{{A: "item", V: 1}, {A: "next"}, {A: "adv", D: 50}, {A: "item", V: 2}, {A: "adv", D: 49}, {A: "next"},
+			{A: "adv", D: 1}, {A: "adv", D: 60}}},
 		// F8: the producer is ahead of the consumer when Close is called
 		{2, 10, false, []batchStep{{A: "item", V: 1}, {A: "item", V: 2}, {A: "item", V: 3}, {A: "item", V: 4}, {A: "item", V: 5}, {A: "close"}}},
 		{1, 10, false, []batchStep{{A: "item", V: 1}, {A: "item", V: 2}, {A: "next"}, {A: "item", V: 3}, {A: "item", V: 4}, {A: "close"}}},
